@@ -6,6 +6,9 @@ V = os.path.dirname(os.path.dirname(os.path.abspath(__file__)))
 # id -> (technique, level text, level note, design ref)
 PROOF_NOTE = "Lean 4.33 kernel; axioms propext/Quot.sound/Classical.choice only (audited per run); translator go/extract and the layout interpreter Model/Layout.lean validated against the real IEncode/IDecode by the correspondence run; Go runtime/stdlib modelled (DESIGN.md 2.6)."
 CLAIMED = {
+ "C17": ("Lean 4 theorems by linear arithmetic (omega) over all field values / all 64-bit ids on a model of CombineMsgID/SplitMsgID/MsgID2String/MsgIDString2Uint64 with explicit uint64 wrap-around; string form by induction on the fixed-width decimal printer; model tied by correspondence",
+         "Unbounded proof of field positions, split∘combine, combine∘split on all 2^64 ids and the 22-digit string round trip; the model is compared with the Go functions on each field's full range at both extremes of the others, bit patterns and 20k-1M random tuples and ids (fmt.Sscanf is modelled only on well-formed 22-digit strings).",
+         PROOF_NOTE + " fmt.Sprintf/Sscanf width formatting modelled.", "DESIGN.md 4/C17"),
  "C06": ("Lean 4 theorems by induction on a hand model of the splitter (cut points / slices / headers) for arbitrary data, capacities and boundary rules; model tied to EncodeCMPP/SMPPContentAndSplit by correspondence on the encoded units; reported coding and end-to-end decoding checked on the implementation with independent reference codecs",
          "Unbounded proof that the parts, headers removed, concatenate to exactly the encoded message (generic and packed path) and that fitting messages are single parts; the packed path's per-part unpacking with a known septet count and the coding selection are validated on the implementation, not yet proved (pack=bit-stream theorem pending).",
          PROOF_NOTE + " Text codecs (x/text) outside the model.", "DESIGN.md 4/C06"),
